@@ -100,16 +100,20 @@ func (l *c15Log) growTo(n int64, small bool) {
 	}
 }
 
-func (l *c15Log) signedCheckpoint(size int64) []byte {
+func (l *c15Log) signedCheckpoint(size int64, extra note.Signer) []byte {
 	text := vfref.FormatCheckpointText(l.origin, size, l.ref.Root(size))
-	n, err := note.Sign(&note.Note{Text: text}, l.signer)
+	signers := []note.Signer{l.signer}
+	if extra != nil {
+		signers = append(signers, extra)
+	}
+	n, err := note.Sign(&note.Note{Text: text}, signers...)
 	if err != nil {
 		panic("VERIF-INCONCLUSIVE: note.Sign: " + err.Error())
 	}
 	return n
 }
 
-func (l *c15Log) addCheckpointBody(oldSize, newSize int64) []byte {
+func (l *c15Log) addCheckpointBody(oldSize, newSize int64, extra note.Signer) []byte {
 	var b bytes.Buffer
 	fmt.Fprintf(&b, "old %d\n", oldSize)
 	if oldSize > 0 {
@@ -122,7 +126,7 @@ func (l *c15Log) addCheckpointBody(oldSize, newSize int64) []byte {
 		}
 	}
 	b.WriteString("\n")
-	b.Write(l.signedCheckpoint(newSize))
+	b.Write(l.signedCheckpoint(newSize, extra))
 	return b.Bytes()
 }
 
